@@ -228,3 +228,143 @@ func laneACL(c *ev.Ctx, id string, seed int64) {
 	}
 	c.Add("acl_programs", 1)
 }
+
+// Lane S: "bucket settings ... read back exactly as last written" - also while OBJECTS are written and deleted whose
+// keys coincide with names the storage layout uses for itself (the sidecar store keeps the attributes of a bucket
+// under <bucket>/meta/<attribute>, xattr names are user.acl, user.policy, ...). No object request is a settings
+// request: after every put / multipart completion / delete of such a key, every setting and the ownership of the
+// bucket must be what was last written, and the object must be an ordinary object.
+func laneSettingsVsObjects(c *ev.Ctx, id string, sidecar bool) {
+	if !c.Want(id) {
+		return
+	}
+	store := "xattr"
+	if sidecar {
+		store = "sidecar"
+	}
+	env, err := fx.New("c16s", gw.Config{Sidecar: sidecar, Versioning: true}, 1)
+	if err != nil {
+		c.Inconclusive("gateway start: " + err.Error())
+		return
+	}
+	defer env.Close()
+	root := env.Client(0)
+	if rr := env.CreateUser("alice", "alicesecret", "userplus", 0, 0); rr.Status != 201 {
+		c.Inconclusive("create user: " + rr.String())
+		return
+	}
+	alice := root.With("alice", "alicesecret")
+	const b = "settings-vs-objects"
+	if rr := alice.CreateBucket(b, "x-amz-object-ownership", "BucketOwnerPreferred"); !rr.OK() {
+		c.Inconclusive("create bucket: " + rr.String())
+		return
+	}
+	tagBody := s3c.TaggingXML(map[string]string{"team": "storage"})
+	pol := []byte(fmt.Sprintf(`{"Version":"2012-10-17","Statement":[{"Effect":"Allow","Principal":{"AWS":["alice"]},"Action":"s3:*","Resource":["arn:aws:s3:::%s","arn:aws:s3:::%s/*"]}]}`, b, b))
+	if rr := alice.Sub("PUT", b, "", "tagging=", tagBody, "Content-MD5", s3c.MD5B64(tagBody)); !rr.OK() {
+		c.Inconclusive("put bucket tagging: " + rr.String())
+		return
+	}
+	if rr := alice.Sub("PUT", b, "", "policy=", pol); !rr.OK() {
+		c.Inconclusive("put bucket policy: " + rr.String())
+		return
+	}
+	if rr := alice.PutBucketVersioning(b, "Enabled"); !rr.OK() {
+		c.Inconclusive("put bucket versioning: " + rr.String())
+		return
+	}
+	type snap struct{ acl, tags, policy, ownership, versioning, listed string }
+	take := func() snap {
+		var s snap
+		g := alice.Sub("GET", b, "", "acl=", nil)
+		var a aclGet
+		xml.Unmarshal(g.Body, &a)
+		s.acl = fmt.Sprintf("%d owner=%s grants=%d", g.Status, a.Owner.ID, len(a.AccessControlList.Grant))
+		t := alice.Sub("GET", b, "", "tagging=", nil)
+		tm, _ := s3c.ParseTagging(t.Body)
+		s.tags = fmt.Sprintf("%d %v", t.Status, tm)
+		p := alice.Sub("GET", b, "", "policy=", nil)
+		s.policy = fmt.Sprintf("%d %s", p.Status, p.Body)
+		o := alice.Sub("GET", b, "", "ownershipControls=", nil)
+		s.ownership = fmt.Sprintf("%d %v", o.Status, strings.Contains(string(o.Body), "BucketOwnerPreferred"))
+		v := alice.Sub("GET", b, "", "versioning=", nil)
+		s.versioning = fmt.Sprintf("%d %v", v.Status, strings.Contains(string(v.Body), "<Status>Enabled</Status>"))
+		l := alice.ListBuckets()
+		s.listed = fmt.Sprintf("%d %v", l.Status, strings.Contains(string(l.Body), "<Name>"+b+"</Name>"))
+		return s
+	}
+	want := take()
+	if !strings.HasPrefix(want.acl, "200 owner=alice") || !strings.HasPrefix(want.tags, "200") || !strings.HasPrefix(want.policy, "200") || want.listed != "200 true" {
+		c.Inconclusive(fmt.Sprintf("settings not readable after writing them: %+v", want))
+		return
+	}
+	check := func(op, key string, resp *s3c.Resp) bool {
+		c.Eval(1)
+		got := take()
+		if got == want {
+			return true
+		}
+		var diffs []string
+		for _, f := range [][3]string{{"acl", want.acl, got.acl}, {"tagging", want.tags, got.tags}, {"policy", want.policy, got.policy}, {"ownership-controls", want.ownership, got.ownership}, {"versioning", want.versioning, got.versioning}, {"list-buckets-of-owner", want.listed, got.listed}} {
+			if f[1] != f[2] {
+				diffs = append(diffs, f[0])
+			}
+		}
+		c.Violation("settings-vs-objects:"+op+":key="+key+":"+strings.Join(diffs, "+")+"-changed["+store+"]", id, map[string]any{"operation": op, "key": key, "answer": resp.String(), "settings_written": want, "settings_read_after": got})
+		return false
+	}
+	for _, key := range []string{"data.txt", "meta", "meta/acl", "meta/policy", "acl", "policy", "user.acl", "meta/", "x/meta", "meta/meta"} {
+		body := []byte("object data under " + key)
+		if strings.HasSuffix(key, "/") {
+			body = nil
+		}
+		p := alice.PutObject(b, key, body, "X-Amz-Meta-K", "v", "X-Amz-Tagging", "a=b")
+		if !p.OK() {
+			c.Distinct("S|put-refused|" + key + "|" + store)
+			if !check("refused-put", key, p) {
+				return
+			}
+			continue
+		}
+		if !check("put", key, p) {
+			return
+		}
+		if g := alice.GetObject(b, key); !g.OK() || (body != nil && string(g.Body) != string(body)) {
+			c.Violation("settings-vs-objects:put:key="+key+":acknowledged-object-unreadable["+store+"]", id, map[string]any{"get": g.String()})
+		}
+		if body != nil {
+			if up, r := alice.CreateMPU(b, key); r.OK() {
+				pr := alice.UploadPart(b, key, up, 1, body)
+				cr := alice.CompleteMPU(b, key, up, []s3c.Part{{N: 1, ETag: pr.Header.Get("Etag")}})
+				if !check("complete-multipart-upload", key, cr) {
+					return
+				}
+			}
+			tg := s3c.TaggingXML(map[string]string{"o": "t"})
+			tr := alice.Sub("PUT", b, key, "tagging=", tg, "Content-MD5", s3c.MD5B64(tg))
+			if !check("put-object-tagging", key, tr) {
+				return
+			}
+			dt := alice.Sub("DELETE", b, key, "tagging=", nil)
+			if !check("delete-object-tagging", key, dt) {
+				return
+			}
+		}
+		d := alice.DeleteObject(b, key)
+		if !check("delete", key, d) {
+			return
+		}
+		if vid := p.Header.Get("X-Amz-Version-Id"); vid != "" {
+			dv := alice.DeleteObjectV(b, key, vid)
+			if !check("delete-version", key, dv) {
+				return
+			}
+		}
+		c.Distinct("S|" + key + "|" + store)
+	}
+	if err := env.Restart(0); err == nil {
+		root = env.Client(0)
+		alice = root.With("alice", "alicesecret")
+		check("restart", "", &s3c.Resp{})
+	}
+}
